@@ -45,7 +45,7 @@ func checkC07(c *Ctx) {
 	}
 	const O1, G1, G2, G3, O2, V1 = "C07.O1", "C07.G1", "C07.G2", "C07.G3", "C07.O2", "C07.V1"
 	c.Rule(O1, "continuation iff success (both synchroniser implementations)", 4)
-	c.Rule(G1, "handler calls dominated by tag found ∧ owner == sender ∧ view found", 4)
+	c.Rule(G1, "handler calls dominated by tag found ∧ owner == sender ∧ view found", 3)
 	c.Rule(G2, "view/ack counting guards", 5)
 	c.Rule(G3, "one confirmation per peer", 1)
 	c.Rule(O2, "continuation argument sorted after its last assignment", 1)
@@ -61,7 +61,7 @@ func checkC07(c *Ctx) {
 		if fn == nil {
 			continue
 		}
-		cont := ssa.Value(fn.Params[2])
+		cont := strip(fn.Params[2])
 		var contCalls []*ssa.Call
 		for _, in := range instrsOf(fn) {
 			if cl, ok := in.(*ssa.Call); ok && strip(cl.Call.Value) == cont {
@@ -140,9 +140,10 @@ func checkC07(c *Ctx) {
 	if hm == nil || len(c.fatal) > 0 {
 		return
 	}
-	from := ssa.Value(hm.Params[1])
+	from := strip(hm.Params[1])
 	nH := 0
-	for _, in := range instrsOf(hm) {
+	handlerSeen := map[string]bool{}
+	for _, in := range instrsDeep(hm) {
 		cl, ok := in.(*ssa.Call)
 		if !ok {
 			continue
@@ -157,6 +158,7 @@ func checkC07(c *Ctx) {
 			continue
 		}
 		nH++
+		handlerSeen[cal.Name()] = true
 		facts := FactsAt(cl)
 		var tagLoad *ssa.Call
 		okTag := boolFact(facts, true, func(v ssa.Value) bool {
@@ -192,7 +194,7 @@ func checkC07(c *Ctx) {
 			s := sl.Slice(tagLoad.Call.Args[1])
 			okKey = sliceHas(s, func(v ssa.Value) bool {
 				c2, ok := v.(*ssa.Call)
-				return ok && staticCallee(&c2.Call) != nil && staticCallee(&c2.Call).Name() == "decodeTagAndMembershipList" && strip(c2.Call.Args[0]) == ssa.Value(hm.Params[2])
+				return ok && staticCallee(&c2.Call) != nil && staticCallee(&c2.Call).Name() == "decodeTagAndMembershipList" && strip(c2.Call.Args[0]) == strip(hm.Params[2])
 			})
 		}
 		// the `from` handed on is the authenticated sender
@@ -212,16 +214,16 @@ func checkC07(c *Ctx) {
 			"tag(msg) found ∧ entry.id == from ∧ topic view found; passes the authenticated from",
 			fmt.Sprintf("a synchroniser message is processed without establishing that its tag belongs to the authenticated sender (tag-found=%v owner==from=%v view-found=%v tag-from-msg=%v passes-from=%v): a member can answer for others", okTag, okOwner, okView, okKey, okFrom))
 	}
-	if nH < 4 {
-		c.Bad(G1, FuncName(hm), "handler calls", "-", fmt.Sprintf("only %d handler calls found in Member.HandleMessage", nH))
+	if len(handlerSeen) < 3 {
+		c.Bad(G1, FuncName(hm), "handler calls", "-", fmt.Sprintf("only %d of the three handlers are called from Member.HandleMessage (%d calls)", len(handlerSeen), nH))
 	}
 
 	// ------------------------------------------------------------------ G2 / N1 / O2
 	syn := m.Func(PkgDisc, "Member", "Synchronize")
 	iv := c.mustFunc(m, PkgDisc, "Member", "intersectedView")
 	if syn != nil && iv != nil {
-		expected := ssa.Value(syn.Params[4])
-		cont := ssa.Value(syn.Params[2])
+		expected := strip(syn.Params[4])
+		cont := strip(syn.Params[2])
 		for _, in := range instrsOf(syn) {
 			cl, ok := in.(*ssa.Call)
 			if !ok || strip(cl.Call.Value) != cont {
@@ -345,7 +347,7 @@ func checkC07(c *Ctx) {
 		}
 		inRange, own := false, false
 		for _, mu := range ups {
-			if len(GuardsOf(mu)) != 0 {
+			if len(GuardsLocal(mu)) != 0 {
 				continue
 			}
 			if mu.Parent() != iv {
@@ -369,7 +371,7 @@ func checkC07(c *Ctx) {
 			n++
 			okG := boolFact(FactsAt(snd), false, func(v ssa.Value) bool {
 				cl, ok := syncMapOK(v, "LoadOrStore", nil)
-				return ok && strip(cl.Call.Args[1]) == ssa.Value(hr.Params[1])
+				return ok && strip(cl.Call.Args[1]) == strip(hr.Params[1])
 			})
 			c.Check(okG, G3, FuncName(hr), "confirmation forwarded once per peer", m.Pos(snd.Pos()), "not-loaded arm of responsesReceived.LoadOrStore(from)", "a peer's repeated responses are counted more than once (one member can supply all confirmations) or block the dispatcher on the bounded channel")
 		}
@@ -406,7 +408,7 @@ func checkC07(c *Ctx) {
 			okSame := len(ids) == 1 && valID != nil && strip(valID) == ids[0]
 			// only skip: id == m.ID
 			okSkip := true
-			for _, g := range GuardsOf(cl) {
+			for _, g := range GuardsLocal(cl) {
 				f := factOf(g)
 				if f.Op == token.NEQ && ((len(ids) == 1 && strip(f.X) == ids[0] && isLoadOfField(f.Y, fSelf)) || (len(ids) == 1 && strip(f.Y) == ids[0] && isLoadOfField(f.X, fSelf))) {
 					continue
